@@ -131,3 +131,23 @@ def run(ctx):
     for m in prims.mutations(cc):
         if m.kind == 'mutcall' and prims.self_field(m.path) in ('resubmit_operation_queue', 'high_priority_operation_queue') and m.method == 'push_front':
             ctx.ob(not any('does_packet_pass_offline_queue_policy' in g for g in guard_strs(cc, m.bb)), 'an in-flight current publish is retained (%s) without a policy test' % prims.self_field(m.path), 'exception|current|' + prims.self_field(m.path), loc=m.loc())
+    # ---- added after seed C15-3a: the close-time policy pass is unconditional
+    cl_ = ctx.fn('ProtocolState::handle_network_event_connection_closed')
+    cs_ = cl_.calls('ProtocolState::change_state')
+    parts_ = [c for c in cl_.calls() if c.nfn.endswith('partition_operation_queue_by_queue_policy')]
+    fails_ = cl_.calls('ProtocolState::complete_operation_sequence_as_failure')
+    polfail = [c for c in fails_ if 'generate_offline_queue_policy_failed_error' in show(c.arg(2))]
+    ok = len(cs_) >= 1 and len(parts_) == 2 and len(polfail) == 2
+    if ok:
+        start = cs_[0].bb
+        errb_ = prims.err_blocks(cl_)      # `?` exits (an internal error while handling the current operation) are not accepting exits
+        _, pred_, _ = cl_.graph()
+        normal_exits = [x for x in cl_.exits() if not (set(pred_.get(x, [])) & errb_) and x not in errb_]
+        finals = [b for b, e in prims.ret_variants(cl_) if b not in errb_]
+        for c in parts_ + polfail:
+            seen_ = cl_.reach(list(cl_.graph()[0][start]), avoid=[c.bb] + list(errb_))
+            ok = ok and not any(x in seen_ for x in finals)
+    ctx.ob(ok, 'every connection close that is processed (whatever state the engine was in: Connected, PendingConnack, PendingDisconnect or Halted) applies the offline policy to the write-completion list and to the user queue and fails what it rejects - no early exit skips it', 'site|closed|unconditional', loc=cl_.loc(), rule='R-C15-2')
+    sr_ = ctx.fn('ProtocolState::should_retain_high_priority_operation')
+    flds_ = prims.self_fields_read(F, sr_, 0)
+    ctx.ob('config' not in flds_ and not [c for c in sr_.calls() if 'offline_queue_policy' in c.nfn], 'the mandated exception: a queued PUBREL is retained at close whatever the offline policy says (its publish is in flight) (fields read: %s)' % sorted(flds_), 'exception|pubrel-no-policy', loc=sr_.loc(), rule='R-C15-4')
